@@ -33,6 +33,7 @@ pub fn replay_rows(tlc_out: &str, rep: &mut Report) {
             continue;
         };
         rep.count("rows");
+        rep.ctx = Some(json!({"sub": "expr-replay", "row": payload}));
         let min = text_of(&row["min"]);
         let red = text_of(&row["red"]);
         let (t1, e1, p1) = run_print(&min);
